@@ -14,6 +14,7 @@ Line protocol of the C03 model.
   C03 ok <query>…                         side conditions `okQ singleClauseGuard` of C03_compile_sound_partial
   C03 jrange <col i|u> <values supplied as i|u> <lk> <lt> <lv> <uk> <ut> <uv> <values>   JSON numeric range: impl bits | spec bits | column type as predicted
   C03 ffrange <lk> <lv> <uk> <uv> <col min> <col max> <full 0|1>   scorer chosen by search_on_u64_ff: empty | all | range:st:en
+  C03 jmerge <t:min:max,…>                 column type of the merged segment (i | u | f)
   C03 guard                               does BooleanWeight::scorer's single-clause branch honour msm (extracted)
   C03 slop <on|off> <slop> <l1/l2/…>      the two phrase-slop algorithms on adjusted position lists
   C03 i64 <u64 bits> / C03 f64 <u64 bits> order-preserving encodings (on bit patterns)
@@ -235,6 +236,19 @@ def handle : List String → String
       | .all => "all"
       | .range st en => s!"range:{st}:{en}"
     | _, _, _, _, _ => "bad-op"
+  | ["jmerge", srcs] =>
+    -- srcs: `t:min:max` separated by `,` with t ∈ i,u,f
+    let one (x : String) : Option JsonRange.Src :=
+      match x.splitOn ":" with
+      | [t, mn, mx] =>
+        let c : Option JsonRange.ColT3 := if t == "i" then some .i64 else if t == "u" then some .u64 else if t == "f" then some .f64 else none
+        match c, mn.toInt?, mx.toInt? with
+        | some c, some mn, some mx => some ⟨c, mn, mx⟩
+        | _, _, _ => none
+      | _ => none
+    match (srcs.splitOn ",").mapM one with
+    | some l => (match JsonRange.mergedCol l with | .i64 => "i" | .u64 => "u" | .f64 => "f")
+    | none => "bad-op"
   | ["i64", v] =>
     match v.toNat? with
     | some v => toString (OrderEnc.i64_to_u64 (BitVec.ofNat 64 v)).toNat
